@@ -57,28 +57,39 @@ Count(s, x) == Cardinality({j \in 1..Len(s) : s[j] = x})
 SameBag(a, b) == Len(a) = Len(b) /\ \A x \in SeqToSet(a) \cup SeqToSet(b) : Count(a, x) = Count(b, x)
 
 (* ------------------------- effective keys (C07) ------------------------- *)
-LowerAlpha == "abcdefghijklmnopqrstuvwxyz"
-UpperAlpha == "ABCDEFGHIJKLMNOPQRSTUVWXYZ"
-PosIn(c, alpha) == IF \E i \in 1..26 : SubSeq(alpha, i, i) = c THEN CHOOSE i \in 1..26 : SubSeq(alpha, i, i) = c ELSE 0
+\* letters: ASCII plus the few Latin-1 letters the catalogue uses (Rust identifiers may be non-ASCII; lowercasing is Unicode's)
+LowerAlpha == "abcdefghijklmnopqrstuvwxyzéäüø"
+UpperAlpha == "ABCDEFGHIJKLMNOPQRSTUVWXYZÉÄÜØ"
+PosIn(c, alpha) == IF \E i \in 1..Len(alpha) : SubSeq(alpha, i, i) = c THEN CHOOSE i \in 1..Len(alpha) : SubSeq(alpha, i, i) = c ELSE 0
 IsUpperC(c) == PosIn(c, UpperAlpha) > 0
 IsLowerC(c) == PosIn(c, LowerAlpha) > 0
+IsDigitC(c) == \E d \in 0..9 : c = DigitChar(d)
 ToUpperC(c) == IF IsLowerC(c) THEN SubSeq(UpperAlpha, PosIn(c, LowerAlpha), PosIn(c, LowerAlpha)) ELSE c
 ToLowerC(c) == IF IsUpperC(c) THEN SubSeq(LowerAlpha, PosIn(c, UpperAlpha), PosIn(c, UpperAlpha)) ELSE c
 
 RECURSIVE LowerStr(_)
 LowerStr(s) == IF Len(s) = 0 THEN "" ELSE ToLowerC(SubSeq(s, 1, 1)) \o LowerStr(SubSeq(s, 2, Len(s)))
+Capitalize(w) == IF Len(w) = 0 THEN "" ELSE ToUpperC(SubSeq(w, 1, 1)) \o LowerStr(SubSeq(w, 2, Len(w)))
 
-\* camelCase of an identifier: words are separated by "_" or start at an upper-case letter that follows a
-\* lower-case one; the first word is lower-cased, every later word is capitalised
-RECURSIVE CamelFrom(_, _, _, _)
-CamelFrom(s, i, out, up) ==
-    IF i > Len(s) THEN out
+\* camelCase of an identifier: the identifier is cut into words at "_" (dropped), where a lower-case letter is followed by an
+\* upper-case one, between a letter and a digit (either way), and before the last capital of an acronym ("HTTPServer" -> HTTP, Server);
+\* the first word is lower-cased, every later word is capitalised.
+BoundaryBefore(s, i) ==      \* is there a word boundary between s[i-1] and s[i] (neither being "_")
+    LET a == SubSeq(s, i - 1, i - 1) b == SubSeq(s, i, i) IN
+    \/ (IsLowerC(a) /\ IsUpperC(b))
+    \/ (IsDigitC(a) /\ (IsUpperC(b) \/ IsLowerC(b)))
+    \/ ((IsUpperC(a) \/ IsLowerC(a)) /\ IsDigitC(b))
+    \/ (IsUpperC(a) /\ IsUpperC(b) /\ i + 1 <= Len(s) /\ IsLowerC(SubSeq(s, i + 1, i + 1)))
+RECURSIVE WordsFrom(_, _, _)
+WordsFrom(s, i, cur) ==
+    IF i > Len(s) THEN (IF cur = "" THEN <<>> ELSE <<cur>>)
     ELSE LET c == SubSeq(s, i, i) IN
-         IF c = "_" THEN CamelFrom(s, i + 1, out, out # "")
-         ELSE IF IsUpperC(c) /\ i > 1 /\ IsLowerC(SubSeq(s, i - 1, i - 1)) /\ out # "" THEN CamelFrom(s, i + 1, out \o c, FALSE)
-         ELSE IF up THEN CamelFrom(s, i + 1, out \o ToUpperC(c), FALSE)
-         ELSE CamelFrom(s, i + 1, out \o ToLowerC(c), FALSE)
-CamelCase(s) == CamelFrom(s, 1, "", FALSE)
+         IF c = "_" THEN (IF cur = "" THEN <<>> ELSE <<cur>>) \o WordsFrom(s, i + 1, "")
+         ELSE IF cur # "" /\ BoundaryBefore(s, i) THEN <<cur>> \o WordsFrom(s, i + 1, c)
+         ELSE WordsFrom(s, i + 1, cur \o c)
+RECURSIVE JoinCap(_)
+JoinCap(ws) == IF Len(ws) = 0 THEN "" ELSE Capitalize(ws[1]) \o JoinCap(SubSeq(ws, 2, Len(ws)))
+CamelCase(s) == LET ws == WordsFrom(s, 1, "") IN IF Len(ws) = 0 THEN "" ELSE LowerStr(ws[1]) \o JoinCap(SubSeq(ws, 2, Len(ws)))
 
 \* rename > applicable rename_all > the identifier itself
 KeyFor(ident, rename, ra) ==
